@@ -10,7 +10,7 @@ fn = prop.HARNESSES[sys.argv[2]]
 def run(ex):
     lib['bitcoin'].SelectParams('mainnet')
     fn(SymCtx(ex, lib), **params)
-ex = core.Explorer(run, max_paths=10**7, max_seconds=float(sys.argv[4]) if len(sys.argv) > 4 else 300)
+ex = core.Explorer(run, max_paths=10**7, max_seconds=float(sys.argv[4]) if len(sys.argv) > 4 else 300, inc_timeout_ms=int(sys.argv[5]) if len(sys.argv) > 5 else 8000)
 t = time.time()
 print(ex.run(), '%.1fs' % (time.time() - t))
 d = ex.stats.as_dict(); d.pop('labels'); print(d)
